@@ -587,6 +587,216 @@ def loop_range(b):
     return sorted(set(out))
 
 
+# ---------------------------------------------------------------- lane-linear interpretation of the outer functions
+#
+# The outer function of a vector backend must return the sum of ALL lanes of ALL kernel results, each counted once.  Every
+# vector value is interpreted as a list of lanes, each lane a linear form {atom: coefficient} over the atoms (kernel call,
+# lane); lane-wise adds add forms, shuffles/extracts/pairwise adds permute or combine them, the scalar tail of the 16-bit
+# families unpacks the two lanes of a 32-bit word.  Any regrouping of the additions yields the same forms; a lane that is
+# dropped, counted twice, added at the wrong lane width or taken from the wrong position changes them.
+
+class _LaneErr(Exception):
+    pass
+
+
+def _lf_add(a, b):
+    out = dict(a)
+    for k, v in b.items():
+        out[k] = out.get(k, 0) + v
+        if out[k] == 0:
+            del out[k]
+    return out
+
+
+def _vec_add(a, b, width):
+    if a[0] != "vec" or b[0] != "vec" or a[1] != width or b[1] != width or len(a[2]) != len(b[2]):
+        raise _LaneErr("lane-wise add at %d-bit lanes of %s and %s" % (width, a[:2], b[:2]))
+    return ("vec", width, [_lf_add(x, y) for x, y in zip(a[2], b[2])])
+
+
+def lane_linear(b, e, env, kernel_path, lanes, width, depth=0):
+    """abstract value of raw expression e: ('vec', lane bits, [forms]) | ('scalar', form) | ('packed', form_lo, form_hi) | ('int', v)"""
+    if depth > 300:
+        raise _LaneErr("expression too deep")
+    rec = lambda x: lane_linear(b, x, env, kernel_path, lanes, width, depth + 1)
+    k = e[0]
+    if k == "local" and e in env:
+        return env[e]
+    if k == "const":
+        return ("int", e[1])
+    if k == "cast":
+        return rec(e[3])
+    if k in ("val", "ref"):
+        return rec(e[-1])
+    if k == "bin":
+        op = e[1].replace("WithOverflow", "").replace("Unchecked", "")
+        a, c = rec(e[2]), rec(e[3])
+        if op == "Add" and a[0] == "scalar" and c[0] == "scalar":
+            return ("scalar", _lf_add(a[1], c[1]))
+        if op == "Add" and "int" in (a[0], c[0]) and ("int", 0) in (a, c):
+            return c if a == ("int", 0) else a
+        if op == "BitAnd" and "packed" in (a[0], c[0]) and ("int", 0xFFFF) in (a, c):
+            pk = a if a[0] == "packed" else c
+            return ("scalar", pk[1])
+        if op == "Shr" and a[0] == "packed" and c == ("int", 16):
+            return ("scalar", a[2])
+        raise _LaneErr("scalar operation %s on %s, %s" % (op, a[0], c[0]))
+    if k == "agg" and e[1] == "tuple":
+        return ("tuple", [rec(x) for x in e[2]])
+    if k == "field" and isinstance(e[2], int):
+        v = rec(e[1])
+        if v[0] == "tuple" and e[2] < len(v[1]):
+            return v[1][e[2]]
+        raise _LaneErr("field of %s" % v[0])
+    if k != "call":
+        raise _LaneErr("unsupported expression %s" % str(e)[:60])
+    bb, path, args = e[1], e[2], e[3]
+    nm = path.rsplit("::", 1)[-1]
+    if path == kernel_path:
+        # a fresh vector of atoms; the operands (loads) are checked by the load-coverage rule
+        cid = "K%d" % bb
+        return ("vec", width, [{(cid, i): 1} for i in range(lanes)])
+    imm = imm_of(b, bb) if isinstance(bb, int) else None
+    m = re.match(r"_mm(256)?_add_epi(\d+)$", nm)
+    if m:
+        return _vec_add(rec(args[0]), rec(args[1]), int(m.group(2)))
+    if nm in ("_mm_setzero_si128", "_mm256_setzero_si256"):
+        return ("vec", width, [{} for _ in range(lanes)])
+    m = re.match(r"_mm(256)?_set1_epi(\d+)$", nm)
+    if m:
+        v = rec(args[0])
+        if v == ("int", 0):
+            return ("vec", width, [{} for _ in range(lanes)])
+        raise _LaneErr("splat of a non-zero value")
+    if nm in ("_mm_shuffle_epi32", "_mm256_shuffle_epi32"):
+        v = rec(args[0])
+        if v[0] != "vec" or imm is None:
+            raise _LaneErr("shuffle of %s" % v[0])
+        per32 = 32 // v[1]  # lanes per 32-bit group
+        groups = [v[2][i:i + per32] for i in range(0, len(v[2]), per32)]
+        out = []
+        for half in range(0, len(groups), 4):  # each 128-bit half separately
+            for j in range(4):
+                out += groups[half + ((imm >> (2 * j)) & 3)]
+        return ("vec", v[1], out)
+    if nm == "_mm_cvtsi128_si32":
+        v = rec(args[0])
+        if v[0] != "vec":
+            raise _LaneErr("cvtsi128_si32 of %s" % v[0])
+        return ("scalar", v[2][0]) if v[1] == 32 else ("packed", v[2][0], v[2][1])
+    if nm == "_mm256_extract_epi32":
+        v = rec(args[0])
+        if v[0] != "vec" or v[1] != 32 or imm is None or not (0 <= imm < len(v[2])):
+            raise _LaneErr("extract_epi32::<%s> of %s" % (imm, v[:2]))
+        return ("scalar", v[2][imm])
+    # NEON
+    m = re.match(r"vaddq?_u(\d+)$", nm)
+    if m:
+        return _vec_add(rec(args[0]), rec(args[1]), int(m.group(1)))
+    m = re.match(r"vdupq_n_u(\d+)$", nm)
+    if m:
+        if rec(args[0]) == ("int", 0):
+            return ("vec", int(m.group(1)), [{} for _ in range(128 // int(m.group(1)))])
+        raise _LaneErr("splat of a non-zero value")
+    m = re.match(r"vpaddlq_u(\d+)$", nm)
+    if m:
+        v = rec(args[0])
+        if v[0] != "vec" or v[1] != int(m.group(1)):
+            raise _LaneErr("vpaddlq_u%s of %s" % (m.group(1), v[:2]))
+        return ("vec", v[1] * 2, [_lf_add(v[2][2 * j], v[2][2 * j + 1]) for j in range(len(v[2]) // 2)])
+    m = re.match(r"vget_(high|low)_u(\d+)$", nm)
+    if m:
+        v = rec(args[0])
+        if v[0] != "vec" or v[1] != int(m.group(2)):
+            raise _LaneErr("%s of %s" % (nm, v[:2]))
+        h = len(v[2]) // 2
+        return ("vec", v[1], v[2][h:] if m.group(1) == "high" else v[2][:h])
+    m = re.match(r"vget_lane_u(\d+)$", nm)
+    if m:
+        v = rec(args[0])
+        if v[0] != "vec" or v[1] != int(m.group(1)) or imm is None or not (0 <= imm < len(v[2])):
+            raise _LaneErr("%s::<%s> of %s" % (nm, imm, v[:2]))
+        return ("scalar", v[2][imm])
+    if nm == "wrapping_add" and len(args) == 2:
+        a, c = rec(args[0]), rec(args[1])
+        if a[0] == "scalar" and c[0] == "scalar":
+            return ("scalar", _lf_add(a[1], c[1]))
+        raise _LaneErr("wrapping_add of %s, %s" % (a[0], c[0]))
+    if nm == "wrapping_shr" and len(args) == 2:
+        a, c = rec(args[0]), rec(args[1])
+        if a[0] == "packed" and c == ("int", 16):
+            return ("scalar", a[2])
+        raise _LaneErr("wrapping_shr of %s by %s" % (a[0], c))
+    raise _LaneErr("unsupported call %s" % nm)
+
+
+KERNEL_LANES = {"sse2": (8, 16), "sse4.1": (4, 32), "avx2": (8, 32), "neon": (8, 16)}
+
+
+def outer_linear(ctx, r, F, b, path, fam):
+    """the outer function returns the sum of every lane of every kernel result exactly once"""
+    name = path.rsplit("::", 2)[-2] + "::" + path.rsplit("::", 1)[-1]
+    lanes, width = KERNEL_LANES[fam]
+    kern = BODY_KERNELS[fam]
+    S = sym.Sym(b)
+    paths = S.paths()
+    rets = [p for p in paths if p.end == "return"]
+    loops = [p for p in paths if p.end == "loop"]
+    why = None
+    n_k = 0
+    try:
+        if not loops:
+            if len(rets) != 1:
+                raise _LaneErr("%d returning paths" % len(rets))
+            v = lane_linear(b, rets[0].ret, {}, kern, lanes, width)
+            n_k = len({a[0] for a in (v[1] if v[0] == "scalar" else {})})
+        else:
+            hdr = loops[0].blocks[-1]
+            step = [p for p in S.paths(entry=hdr) if p.end == "loop"]
+            after = [p for p in S.paths(entry=hdr) if p.end == "return"]
+            if len(step) != 1 or len(after) != 1:
+                raise _LaneErr("loop with %d step paths and %d exits" % (len(step), len(after)))
+            # accumulators: locals whose value after one iteration is add(previous value, kernel result)
+            accs = {}
+            for l, val in (step[0].env["locals"].items() if step[0].env else ()):
+                try:
+                    nv = lane_linear(b, val, {("local", l): ("vec", width, [{("ACC", i): 1} for i in range(lanes)])}, kern, lanes, width)
+                except _LaneErr:
+                    continue
+                if nv[0] == "vec" and nv[1] == width and all(f.get(("ACC", i)) == 1 and len(f) == 2 and sum(f.values()) == 2 for i, f in enumerate(nv[2])):
+                    # previous value + exactly one kernel lane i
+                    if all([k_ for k_ in f if k_[0] != "ACC"][0][1] == i for i, f in enumerate(nv[2])):
+                        accs[l] = True
+            if not accs:
+                raise _LaneErr("no accumulator of the form s = add(s, kernel(..)) in the loop")
+            # initial value zero: entry path value of the accumulator at the header
+            for l in accs:
+                init = loops[0].env["locals"].get(l) if loops[0].env else None
+            env = {("local", l): ("vec", width, [{("SUM", i): 1} for i in range(lanes)]) for l in accs}
+            v = lane_linear(b, after[0].ret, env, kern, lanes, width)
+            n_k = 1
+        if v[0] != "scalar":
+            raise _LaneErr("the function returns a %s" % v[0])
+        form = v[1]
+        ids = sorted({a[0] for a in form})
+        bad = [(a, c) for a, c in form.items() if c != 1]
+        missing = [(i, ln) for i in ids for ln in range(lanes) if (i, ln) not in form]
+        if bad:
+            why = "lane %s of kernel call %s is counted %d times" % (bad[0][0][1], bad[0][0][0], bad[0][1])
+        elif missing:
+            why = "lane %d of kernel call %s does not reach the result" % (missing[0][1], missing[0][0])
+        elif not ids:
+            why = "no kernel result reaches the returned value"
+        n_k = len(ids)
+    except _LaneErr as ex:
+        why = str(ex)
+    ctx.instance(r)
+    ctx.ob(r, (name, "sums-every-lane-once"), why is None,
+           "%s does not return the sum of all %d lanes of each kernel result exactly once: %s" % (path, lanes, why), cfg=F.key, where=b.where(),
+           detail={"kernel_results": n_k, "lanes": lanes, "lane_bits": width})
+    return why is None
+
+
 def x86_reduction(ctx, r, F, b, path, fam):
     # lane-reduction shuffles: every backend reduces with the immediates 0b11_10_11_10 then 0b01_01_01_01
     imms = []
@@ -680,10 +890,7 @@ def outer_loads(ctx, r, F):
         ctx.ob(r, (path.rsplit("::", 2)[-2] + "::" + path.rsplit("::", 1)[-1], "loads-cover-body"), ok and cover,
                "%s loads vector chunks %s / %s of its two %d-byte bodies (vector width %d, loop ranges %s); reference every chunk %s exactly once from each" % (
                    path, sorted(per[1]), sorted(per[2]), size, W, rngs, sorted(want)), cfg=F.key, where=b.where())
-        if fam == "neon":
-            neon_reduction(ctx, r, F, b, path)
-        else:
-            x86_reduction(ctx, r, F, b, path, fam)
+        outer_linear(ctx, r, F, b, path, fam)
         # kernel called on pairs (x_i, y_i) of the same chunk, and every result is accumulated
         kern = BODY_KERNELS[fam]
         pairs_ok = True
@@ -700,58 +907,185 @@ def outer_loads(ctx, r, F):
                         pairs_ok = False
         ctx.ob(r, (path.rsplit("::", 2)[-2] + "::" + path.rsplit("::", 1)[-1], "kernel-on-matching-chunks"), pairs_ok and ncalls > 0,
                "%s does not feed its kernel with (body1 chunk i, body2 chunk i) pairs" % path, cfg=F.key, where=b.where())
-    # pseudo-SIMD outer functions: chunks_exact(k) zipped, k = lane bytes
-    for path, k in (("compare::dist_body::pseudo_simd_32::distance_12", 4), ("compare::dist_body::pseudo_simd_32::distance_32", 4),
-                    ("compare::dist_body::pseudo_simd_32::distance_64", 4), ("compare::dist_body::pseudo_simd_64::distance_32", 8),
-                    ("compare::dist_body::pseudo_simd_64::distance_64", 8)):
+    pseudo_outer(ctx, r, F)
+
+
+SUBD = ("compare::dist_body::pseudo_simd_32::sub_distance", "compare::dist_body::pseudo_simd_64::sub_distance")
+SUBD_BYTES = {SUBD[0]: 4, SUBD[1]: 8}
+
+
+def _word_of(e):
+    """(param index, window start, window end | None, chunk description) of a `uN::from_ne_bytes(<window>.try_into().unwrap())`
+    word, where the window is a constant slice of a body parameter; or ('chunk', which) for a chunks_exact item."""
+    x = e
+    if not (x[0] == "call" and x[1].endswith(("::from_ne_bytes", "::from_le_bytes"))):
+        return None
+    x = x[2][0]
+    if x[0] == "call" and x[1].endswith("::unwrap"):
+        x = x[2][0]
+    if x[0] == "call" and x[1].endswith("try_into"):
+        x = x[2][0]
+    return x
+
+
+def pseudo_outer(ctx, r, F):
+    """pseudo-SIMD outer functions: every word of body1 is paired with the word at the same offset of body2, each pair goes
+    through sub_distance once and the results are summed.  Accepted spellings: a `for` loop or `.map(..).sum()` over
+    body1.chunks_exact(k).zip(body2.chunks_exact(k)) (k = the word size of the kernel called), or explicit constant windows
+    (indexing, split_at) that tile the body."""
+    from . import layout
+    for path, size in (("compare::dist_body::pseudo_simd_32::distance_12", 12), ("compare::dist_body::pseudo_simd_32::distance_32", 32),
+                       ("compare::dist_body::pseudo_simd_32::distance_64", 64), ("compare::dist_body::pseudo_simd_64::distance_12", 12),
+                       ("compare::dist_body::pseudo_simd_64::distance_32", 32), ("compare::dist_body::pseudo_simd_64::distance_64", 64)):
         b = F.fn(path)
         if b is None:
             continue
         ctx.instance(r)
+        name = path.rsplit("::", 2)[-2] + "::" + path.rsplit("::", 1)[-1]
         S = sym.Sym(b)
-        pre = None
-        for p in S.paths():
-            if p.end == "loop":
-                pre = p
-        ok = False
-        if pre is not None:
-            ce = [(c[1].rsplit("::", 1)[-1], [n(a) for a in c[2]]) for c in pre.calls]
-            chunks = [a for nm, a in ce if nm == "chunks_exact"]
-            zips = [a for nm, a in ce if nm == "zip"]
-            ok = len(chunks) == 2 and all(a[1] == C(k) for a in chunks) and len(zips) == 1 and \
-                {str(chunks[0][0]), str(chunks[1][0])} == {str(("call", "core::array::<impl [T; N]>::as_slice", (P(1),))), str(("call", "core::array::<impl [T; N]>::as_slice", (P(2),)))}
-        ctx.ob(r, (path.rsplit("::", 2)[-2] + "::" + path.rsplit("::", 1)[-1], "chunks-cover-body"), ok,
-               "%s is not body1.chunks_exact(%d).zip(body2.chunks_exact(%d))" % (path, k, k), cfg=F.key, where=b.where())
-    # the 12-byte (Short) body never uses a vector backend: distance_12 forwards both bodies, in order, to the pseudo-SIMD
-    # function of the target's word size
-    b12 = F.fn("compare::dist_body::distance_12")
-    if b12 is not None:
-        ctx.instance(r)
-        ps = [p for p in sym.Sym(b12).paths() if p.end == "return"]
-        want = ["compare::dist_body::pseudo_simd_%d::distance_12" % w for w in (32, 64)]  # either word size computes the same sum
-        ok = bool(ps)
-        got = []
-        for p in ps:
-            e = n(p.ret)
-            got.append(sym.fmt(e)[:80])
-            if not (e[0] == "call" and e[1] in want and e[2] == (P(1), P(2))):
-                ok = False
-        ctx.ob(r, ("dist_body::distance_12", "forwards"), ok, "distance_12 returns %s; reference pseudo_simd_{32,64}::distance_12(body1, body2)" % got, cfg=F.key, where=b12.where())
-    b = F.fn("compare::dist_body::pseudo_simd_64::distance_12")
-    if b is not None:
-        ctx.instance(r)
-        ps = [p for p in sym.Sym(b).paths() if p.end == "return"]
-        ok = False
-        if len(ps) == 1:
-            wins = []
-            for (bb, cp, args, c) in ps[0].calls:
-                if cp.endswith("::index") and len(args) == 2:
-                    a = [n(x) for x in args]
-                    m = match(("agg", "adt:core::ops::Range::Range", (("const", V("lo")), ("const", V("hi")))), a[1])
-                    if m and a[0] in (P(1), P(2)):
-                        wins.append((a[0][1], m["lo"], m["hi"]))
-            ok = sorted(wins) == [(1, 0, 8), (1, 8, 12), (2, 0, 8), (2, 8, 12)]
-        ctx.ob(r, ("pseudo_simd_64::distance_12", "windows-cover-body"), ok, "pseudo_simd_64::distance_12 does not read [0,8) and [8,12) of both bodies", cfg=F.key, where=b.where())
+        paths = S.paths()
+        why = None
+        try:
+            why = _pseudo_one(F, b, S, paths, size, layout)
+        except Exception as ex:  # noqa: BLE001 -- an unrecognised shape is reported, never skipped
+            why = "cannot analyse: %s" % ex
+        ctx.ob(r, (name, "chunks-cover-body"), why is None,
+               "%s does not sum sub_distance over the word pairs (body1 word i, body2 word i) that tile its %d-byte bodies: %s" % (path, size, why),
+               cfg=F.key, where=b.where())
+
+
+def _chunk_iter(e, closure_ok=True):
+    """k and the two sources of `a.chunks_exact(k).zip(b.chunks_exact(k))` (through into_iter/iter adapters), else None"""
+    x = e
+    while x[0] == "call" and x[1].endswith(("::into_iter", "::iter", "::by_ref")) and len(x[2]) == 1:
+        x = x[2][0]
+    if not (x[0] == "call" and x[1].endswith("::zip") and len(x[2]) == 2):
+        return None
+    srcs = []
+    ks = []
+    for side in x[2]:
+        y = side
+        while y[0] == "call" and y[1].endswith(("::into_iter", "::iter")) and len(y[2]) == 1:
+            y = y[2][0]
+        if not (y[0] == "call" and y[1].endswith("::chunks_exact") and len(y[2]) == 2 and y[2][1][0] == "const"):
+            return None
+        ks.append(y[2][1][1])
+        base = y[2][0]
+        while base[0] == "call" and base[1].endswith(("::as_slice", "::as_ref")) and len(base[2]) == 1:
+            base = base[2][0]
+        while base[0] in ("ref", "cast", "deref"):
+            base = base[-1]
+        srcs.append(base)
+    if ks[0] != ks[1]:
+        return None
+    return ks[0], srcs
+
+
+def _pseudo_one(F, b, S, paths, size, layout):
+    rets = [p for p in paths if p.end == "return"]
+    loops = [p for p in paths if p.end == "loop"]
+    if loops:
+        # for (x, y) in a.chunks_exact(k).zip(b.chunks_exact(k)) { total += sub_distance(word(x), word(y)) }
+        pre = loops[0]
+        its = [n(c[2][0]) for c in pre.calls if c[1].endswith("::into_iter")]
+        ci = _chunk_iter(its[-1]) if its else None
+        if ci is None:
+            return "the loop does not iterate body1.chunks_exact(k).zip(body2.chunks_exact(k))"
+        k, srcs = ci
+        if srcs != [P(1), P(2)]:
+            return "the zipped chunk iterators are over %s; reference (body1, body2)" % [sym.fmt(x) for x in srcs]
+        hdr = pre.blocks[-1]
+        step = [p for p in S.paths(entry=hdr) if p.end == "loop"]
+        if len(step) != 1:
+            return "%d loop-step paths" % len(step)
+        p = step[0]
+        ks = [c for c in p.calls if c[1] in SUBD]
+        if len(ks) != 1 or SUBD_BYTES[ks[0][1]] != k:
+            return "the loop body calls sub_distance %d times / with a %d-byte chunk" % (len(ks), k)
+        nxt = [n(("call", c[0], c[1], c[2])) for c in p.calls if c[1].endswith("::next")]
+        item = ("field", ("variant", nxt[0], "Some"), 0) if nxt else None
+        args = [n(a) for a in ks[0][2]]
+        ws = [_word_of(a) for a in args]
+        if ws != [("field", item, 0), ("field", item, 1)]:
+            return "sub_distance is applied to %s; reference (word of body1 chunk, word of body2 chunk)" % [sym.fmt(a)[:60] for a in args]
+        # accumulation: some local becomes previous + call result
+        callv = n(("call", ks[0][0], ks[0][1], ks[0][2]))
+        acc_ok = False
+        for l, v in (p.env["locals"].items() if p.env else ()):
+            nv = n(v)
+            if nv[0] == "bin" and nv[1] == "Add" and callv in (nv[2], nv[3]) and ("local", l) in (nv[2], nv[3]):
+                acc_ok = True
+        if not acc_ok:
+            return "the call result is not added to an accumulator"
+        return None
+    if len(rets) != 1:
+        return "%d returning paths" % len(rets)
+    e = n(rets[0].ret)
+    # .map(closure).sum()
+    if e[0] == "call" and e[1].endswith("::sum") and len(e[2]) == 1:
+        m_ = e[2][0]
+        if not (m_[0] == "call" and m_[1].endswith("::map") and len(m_[2]) == 2):
+            return "sum() of %s" % sym.fmt(m_)[:60]
+        ci = _chunk_iter(m_[2][0])
+        if ci is None:
+            return "map() is not over body1.chunks_exact(k).zip(body2.chunks_exact(k))"
+        k, srcs = ci
+        if srcs != [P(1), P(2)]:
+            return "the zipped chunk iterators are over %s; reference (body1, body2)" % [sym.fmt(x) for x in srcs]
+        clo = m_[2][1]
+        cpath = None
+        for x in find_all(clo, lambda y: y[0] == "agg" and isinstance(y[1], str) and y[1].startswith("closure:")):
+            cpath = x[1][len("closure:"):]
+        cb = F.fn(cpath) if cpath else None
+        if cb is None:
+            return "the mapped function is not a closure of this function"
+        cps = [q for q in sym.Sym(cb).paths() if q.end == "return"]
+        if len(cps) != 1:
+            return "closure with %d returning paths" % len(cps)
+        ce = n(cps[0].ret)
+        if not (ce[0] == "call" and ce[1] in SUBD and SUBD_BYTES[ce[1]] == k):
+            return "the closure returns %s" % sym.fmt(ce)[:60]
+        ws = [_word_of(a) for a in ce[2]]
+        # closure parameter 2 is the (x, y) tuple
+        if ws != [("field", P(2), 0), ("field", P(2), 1)]:
+            return "the closure applies sub_distance to %s" % [sym.fmt(a)[:60] for a in ce[2]]
+        return None
+    # explicit windows
+    terms = []
+
+    def flat(x):
+        if x[0] == "bin" and x[1] == "Add":
+            flat(x[2])
+            flat(x[3])
+        else:
+            terms.append(x)
+
+    flat(e)
+    wins = []
+    for t in terms:
+        if not (t[0] == "call" and t[1] in SUBD):
+            return "the result has a term %s" % sym.fmt(t)[:60]
+        ws = [_word_of(a) for a in t[2]]
+        w1 = layout.window(ws[0], P(1)) if ws[0] is not None else None
+        w2 = layout.window(ws[1], P(2)) if ws[1] is not None else None
+        if w1 is None or w2 is None:
+            return "sub_distance arguments %s are not words of (body1, body2)" % [sym.fmt(a)[:50] for a in t[2]]
+        lo1, hi1 = w1[0], (w1[1] if w1[1] is not None else C(size))
+        lo2, hi2 = w2[0], (w2[1] if w2[1] is not None else C(size))
+        if (lo1, hi1) != (lo2, hi2) or lo1[0] != "const" or hi1[0] != "const":
+            return "word windows %s and %s differ" % ((sym.fmt(lo1), sym.fmt(hi1)), (sym.fmt(lo2), sym.fmt(hi2)))
+        if hi1[1] - lo1[1] != SUBD_BYTES[t[1]]:
+            return "a %d-byte window is fed to the %d-byte kernel" % (hi1[1] - lo1[1], SUBD_BYTES[t[1]])
+        wins.append((lo1[1], hi1[1]))
+    wins.sort()
+    pos = 0
+    for lo, hi in wins:
+        if lo != pos:
+            return "windows %s do not tile [0,%d)" % (wins, size)
+        pos = hi
+    if pos != size:
+        return "windows %s do not tile [0,%d)" % (wins, size)
+    return None
 
 
 # ---------------------------------------------------------------- aggregation kernels
